@@ -245,6 +245,9 @@ LOOP_SPEC = {"openapi": "3.1.0", "info": {"title": "loop", "version": "1"}, "pat
     "/items": {"post": {"operationId": "create_item", "requestBody": {"required": True, "content": {"application/json": {"schema": {"$ref": "#/components/schemas/Item"}}}},
                         "responses": {"201": {"description": "made", "content": {"application/json": {"schema": {"$ref": "#/components/schemas/Echo"}}}}}},
                "get": {"operationId": "find_items", "parameters": [{"name": "q", "in": "query", "required": True, "schema": {"type": "string"}}, {"name": "limit", "in": "query", "schema": {"type": "integer"}},
+                                                                     {"name": "tags", "in": "query", "style": "pipeDelimited", "schema": {"type": "array", "items": {"type": "string"}}},
+                                                                     {"name": "ids", "in": "query", "style": "spaceDelimited", "schema": {"type": "array", "items": {"type": "integer"}}},
+                                                                     {"name": "csv", "in": "query", "explode": False, "schema": {"type": "array", "items": {"type": "string"}}},
                                                                      {"name": "X-Tenant", "in": "header", "schema": {"type": "string"}}],
                        "responses": {"200": {"description": "ok", "content": {"application/json": {"schema": {"$ref": "#/components/schemas/Echo"}}}}}}},
     # optional query parameters whose schemas carry a default (absent must arrive absent) and a discriminated
@@ -279,7 +282,7 @@ use case_1 as S;
 struct Svc;
 impl S::ApiServer for Svc {
     async fn find_items(&self, request: S::FindItemsRequest) -> anyhow::Result<S::FindItemsResponse> {
-        Ok(S::FindItemsResponse::Ok(S::Echo { seen: Some(format!("q={:?} limit={:?} tenant={:?}", request.query.q, request.query.limit, request.header.x_tenant)) }))
+        Ok(S::FindItemsResponse::Ok(S::Echo { seen: Some(format!("q={:?} limit={:?} tenant={:?} tags={:?} ids={:?} csv={:?}", request.query.q, request.query.limit, request.header.x_tenant, request.query.tags, request.query.ids, request.query.csv)) }))
     }
     async fn create_item(&self, request: S::CreateItemRequest) -> anyhow::Result<S::CreateItemResponse> {
         Ok(S::CreateItemResponse::Created(S::Echo { seen: Some(format!("name={:?} qty={:?}", request.body.name, request.body.qty)) }))
@@ -323,7 +326,7 @@ fn main() {
         println!("3\t{:?}", client.restart_job(r).await.map_err(|e| format!("{:#}", e)));
         let mut r = C::CreateItemRequest::default(); r.body = C::Item { name: "n \u{fc}".to_string(), qty: Some(3) };
         println!("4\t{:?}", client.create_item(r).await.map_err(|e| format!("{:#}", e)));
-        let mut r = C::FindItemsRequest::default(); r.query.q = "a b&c=d".to_string(); r.query.limit = Some(5); r.header.x_tenant = Some("t1".to_string());
+        let mut r = C::FindItemsRequest::default(); r.query.q = "a b&c=d".to_string(); r.query.limit = Some(5); r.header.x_tenant = Some("t1".to_string()); r.query.tags = Some(vec!["a b".to_string(), "c".to_string()]); r.query.ids = Some(vec![3, -4]); r.query.csv = Some(vec!["x".to_string(), "y z".to_string()]);
         println!("5\t{:?}", client.find_items(r).await.map_err(|e| format!("{:#}", e)));
         let mut r = C::FindItemsRequest::default(); r.query.q = "\u{fc}".to_string();
         println!("6\t{:?}", client.find_items(r).await.map_err(|e| format!("{:#}", e)));
@@ -353,8 +356,8 @@ LOOP_EXPECT = {
     "2": 'Ok(Accepted(Echo { seen: Some("job=\\"j/2 x\\" reason=Some(Some(\\"why\\"))") }))',
     "3": "Ok(Conflict)",
     "4": 'Ok(Created(Echo { seen: Some("name=\\"n \u00fc\\" qty=Some(3)") }))',
-    "5": 'Ok(Ok(Echo { seen: Some("q=\\"a b&c=d\\" limit=Some(5) tenant=Some(\\"t1\\")") }))',
-    "6": 'Ok(Ok(Echo { seen: Some("q=\\"\u00fc\\" limit=None tenant=None") }))',
+    "5": 'Ok(Ok(Echo { seen: Some("q=\\"a b&c=d\\" limit=Some(5) tenant=Some(\\"t1\\") tags=Some([\\"a b\\", \\"c\\"]) ids=Some([3, -4]) csv=Some([\\"x\\", \\"y z\\"])") }))',
+    "6": 'Ok(Ok(Echo { seen: Some("q=\\"\u00fc\\" limit=None tenant=None tags=None ids=None csv=None") }))',
     "11": 'Ok(Ok("plain \u00fc \\"quoted\\"\\nline"))',
     "12": "Ok(Accepted([0, 1, 2, 255, 10, 13]))",
     "13": 'Ok(NotFound(Echo { seen: Some("nf") }))',
